@@ -23,7 +23,14 @@
    checked Int/Byte arithmetic (thread.rs:2493-2503: overflow and division by zero both give
    "Arithmetic overflow") and two host functions: [HEff] stands for a side-effecting extern
    function (it appends its argument to the log) and [HError] for `std.prim.error`.
-   Float arithmetic is not interpreted: it is a parameter of the evaluator. *)
+   Float arithmetic is not interpreted: it is a parameter of the evaluator.
+
+   Recursive groups (Named::Recursive): a member with parameters is a function; a member without
+   parameters is a recursive VALUE (compiler.rs:688-745 allocates all members first and fills each
+   in with CloseData).  Both are represented by [VClo env group name]; the value members are
+   evaluated once, in order, when the group is made ([evm]: effects and failures happen there) and
+   are unfolded on demand when a `match` looks at them ([force]), which gives members that close
+   over each other without cyclic data in the model. *)
 From Coq Require Import List ZArith NArith Bool.
 Import ListNotations.
 
@@ -78,7 +85,7 @@ Definition log := list Z.
 
 (* EStuck: the evaluator met a situation a type-correct program never reaches (unbound
    variable, applying a non-function, a record pattern on a non-record ...), or a construct it
-   does not model (a `rec` group with a member without parameters, i.e. a recursive value). *)
+   does not model. *)
 Inductive err := EExplicit (msg : list N) | EUnmatched | EArith | EStuck.
 
 Inductive out (A : Type) := Val (a : A) | Err (e : err) | OOF.
@@ -265,6 +272,10 @@ Definition is_nil {A : Type} (l : list A) : bool := match l with [] => true | _ 
    consumes fuel, so the fuel of [eval] bounds the depth of nested calls. *)
 Section WithApply.
 Variable ap : value -> list value -> res.
+(* [fr v]: look at a value: a member without parameters of a recursive group (a recursive VALUE,
+   compiler.rs:688-745 NewRecord/CloseData) is represented by [VClo env cs g] like the function
+   members and is unfolded on demand; every other value is returned as it is *)
+Variable fr : value -> res.
 
 Fixpoint ev (r : env) (e : cexpr) {struct e} : res :=
   match e with
@@ -281,14 +292,25 @@ Fixpoint ev (r : env) (e : cexpr) {struct e} : res :=
       bind (evl r args) (fun vs =>
         if Nat.eqb (length names) (length vs) then ret (VRec (combine names vs)) else stuck)
   | Let x rhs body => bind (ev r rhs) (fun v => ev ((x, v) :: r) body)
-  | LetRec cs body => if has_value_member cs then stuck else ev (bind_group r cs) body
-  | Match s alts => bind (ev r s) (fun v => eva r v alts)
+  (* the value members are evaluated once, in order, when the group is made (their effects and
+     failures happen here); the function members need no evaluation *)
+  | LetRec cs body => bind (evm (bind_group r cs) cs) (fun _ => ev (bind_group r cs) body)
+  | Match s alts => bind (ev r s) (fun v => bind (fr v) (fun w => eva r w alts))
   | Cast e => ev r e
   end
 with evl (r : env) (es : cexprs) {struct es} : out (list value) * log :=
   match es with
   | ENil => ret []
   | ECons e es' => bind (ev r e) (fun v => bind (evl r es') (fun vs => ret (v :: vs)))
+  end
+with evm (r : env) (cs : closures) {struct cs} : out unit * log :=
+  match cs with
+  | CNil => ret tt
+  | CCons _ ps body cs' =>
+      match ps with
+      | [] => bind (ev r body) (fun _ => evm r cs')
+      | _ :: _ => evm r cs'
+      end
   end
 with eva (r : env) (v : value) (alts : calts) {struct alts} : res :=
   match alts with
@@ -304,7 +326,9 @@ with eva (r : env) (v : value) (alts : calts) {struct alts} : res :=
 End WithApply.
 
 (* vm/src/thread.rs do_call: too few arguments make a partial application, too many are applied
-   to the result *)
+   to the result.  [force]: a recursive value is unfolded by evaluating its member again in the
+   group's environment; its effects happened when the group was made, so the log of the
+   re-evaluation is dropped (it yields the same value: the evaluator is deterministic). *)
 Fixpoint apply (n : nat) (vf : value) (vs : list value) {struct n} : res :=
   match n with
   | O => (OOF, [])
@@ -318,7 +342,7 @@ Fixpoint apply (n : nat) (vf : value) (vs : list value) {struct n} : res :=
             if is_nil params then stuck
             else if Nat.ltb (length vs) (length params) then ret (VPap vf vs)
             else
-              bind (ev (apply n) (combine params (firstn (length params) vs) ++ bind_group rc cs) body)
+              bind (ev (apply n) (force n) (combine params (firstn (length params) vs) ++ bind_group rc cs) body)
                    (fun v => apply n v (skipn (length params) vs))
         end
     | VPap g vs0 => apply n g (vs0 ++ vs)
@@ -329,11 +353,29 @@ Fixpoint apply (n : nat) (vf : value) (vs : list value) {struct n} : res :=
         end
     | _ => stuck
     end
+  end
+with force (n : nat) (v : value) {struct n} : res :=
+  match v with
+  | VClo rc cs g =>
+      match find_clo g cs with
+      | Some ([], body) =>
+          match n with
+          | O => (OOF, [])
+          | S n =>
+              match ev (apply n) (force n) (bind_group rc cs) body with
+              | (Val w, _) => (Val w, [])
+              | (Err _, _) => (Err EStuck, [])
+              | (OOF, _) => (OOF, [])
+              end
+          end
+      | _ => ret v
+      end
+  | _ => ret v
   end.
 
 (* [eval_core n r e]: the outcome and the log of calls to the effect primitive, with at most n
-   nested function calls *)
-Definition eval (n : nat) (r : env) (e : cexpr) : res := ev (apply n) r e.
+   nested function calls / unfoldings of recursive values *)
+Definition eval (n : nat) (r : env) (e : cexpr) : res := ev (apply n) (force n) r e.
 Definition eval_core := eval.
 
 End Eval.
